@@ -900,6 +900,13 @@ class Node:
             if not msg.header.is_request:
                 # never answer an answer
                 return
+            message_id = (f"{msg.header.hop_by_hop_identifier}:"
+                          f"{msg.header.end_to_end_identifier}")
+            if (hasattr(msg, "origin_host") and
+                    message_id not in self._origin_waiting_answer):
+                # the request has been answered already (the handler failed
+                # after sending its answer), never answer twice
+                return
             err = self._generate_answer(conn, msg)
             err.result_code = constants.E_RESULT_CODE_DIAMETER_UNABLE_TO_COMPLY
             err.error_message = "Message handling error"
